@@ -77,9 +77,13 @@ class _RoutingFlowControl:
         self._wait_time_ms: int = 0
 
     def cancel(self) -> None:
-        """Cancel internal tasks."""
+        """Cancel internal tasks and leave the paused state - nothing would end it anymore."""
         if self._timer_task:
             self._timer_task.cancel()
+            self._timer_task = None
+        self._wait_start_time = None
+        self._received_busy_frames = 0
+        self._ready.set()
 
     @asynccontextmanager
     async def throttle(self) -> AsyncIterator[None]:
